@@ -49,6 +49,33 @@ def nontrivial_key(chunk):
     return (g, tuple(feeds)) if words >= 2 else None
 
 
+def long_after_batch(rng, idx):
+    """Several utterances on one decoder: a long one passed as ONE full-utterance block (which enlarges the cepstrum
+    buffer for good), then long ones streamed in one or two calls, immediately searched or buffered - every frame the
+    front end makes must still be searched, and the results must be results of the grammar."""
+    cfg = {"hmm": os.path.join(sut.REPO, "model", "en-us"), "dict": os.path.join(sut.REPO, "tests", "data", "turtle.dic"),
+           "loglevel": "FATAL"}
+    s = list(decmatrix.audio_defs()) + ["init " + decmatrix.hx(json.dumps(cfg)),
+         "jsgf " + decmatrix.hx("#JSGF V1.0;\ngrammar g;\npublic <s> = (go forward ten meters | go backward | stop)+;\n")]
+    for u in range(4):
+        aud = rng.choice(["gf2", "silgf", "gf2", "gf"])
+        n = decmatrix.AUDIO_LEN[aud]
+        s.append("start")
+        if u == 0 or rng.random() < 0.25:
+            s.append("feed %s 0 -1 %s %d 1" % (aud, rng.choice(["i16", "f32"]), rng.choice([0, 0, 1])))
+        else:
+            first = rng.choice([0, 160, 1000, 4000, 20000, 41000])
+            enc, ns = rng.choice(["i16", "f32"]), rng.choice([0, 0, 1])
+            if first:
+                s.append("feed %s 0 %d %s %d 0" % (aud, first, enc, ns))
+                if rng.random() < 0.5:
+                    s.append("result p%d" % u)
+            s.append("feed %s %d %d %s %d 0" % (aud, first, n - first, enc, ns))
+        s += ["end", "result fin%d" % u]
+    s.append("free")
+    return "long-after-batch#%d" % idx, s
+
+
 def run_which(ctx, which):
     rep = ctx.report
     quick = ctx.tier == "quick"
@@ -65,6 +92,7 @@ def run_which(ctx, which):
         cases = [decmatrix.make_case(rng, ctx, i, {"result", "partial"}) for i in range(n)]
         # every history table the abstract search reaches, written into a real search object: the real find_exit /
         # backtrace / segment iterator on each (a seeded sample in the quick tier)
+        cases += [long_after_batch(rng, n + 50 + i) for i in range(3 if quick else 40)]
         cases += synhist.cases(ctx, rng, quick, lambda tag: ["result " + tag], n + 100, count=2000 if quick else None)
     by_id = dict(cases)
     chunks, crashes = decmatrix.run_cases(ctx, drv, cases)
